@@ -180,7 +180,8 @@ def _text_once(shape, obj):
         q.env_prefix = "ZZ"
         return q.parse_env({"ZZ_" + k[len("APP_"):]: v for k, v in env.items()})
 
-    results.append(("environment (env_prefix assigned after a first parse)", _try(run_env_renamed)))
+    if shape != "subcommands":  # a sub-parser keeps the prefix it was attached with; nothing documents that a later assignment propagates
+        results.append(("environment (env_prefix assigned after a first parse)", _try(run_env_renamed)))
     return results
 
 
